@@ -865,43 +865,56 @@ def check_C18(c):
     rng = c.rng
     table = G.documented_table()
     kinds = ["unary", "binary", "postfix", "ternary", "function", "reference", "list", "map", "chain"]
-    named = {"unary": ["-", "not"], "binary": ["+", "in"], "postfix": ["++", "--"], "function": ["f", "max"], "reference": ["a", "b"]}
+    # the same names under several kinds: a registration for one (kind, name) must not reach another kind with that name
+    shared = ["++", "nm", "-"]
+    named = {"unary": shared, "binary": shared, "postfix": shared, "function": shared + ["max"], "reference": shared + ["b"]}
+    A, B = G.ref("a"), G.ref("b")
+    fixed = [G.stmt([G.binop("+", G.un("-", A), G.post(B, "++")), G.tern(A, G.call("f", [G.lst([G.num(1)])]), G.mp([(G.num(1), B)]))]),
+             G.binop("in", G.binop("-", A, G.num(2)), G.lst([G.call("max", [B])])), G.un("not", G.binop("in", A, B)), G.post(G.ref("x1"), "--")]
+    # every (kind, name) pair of the shared pool occurs
+    for nm in shared:
+        fixed.append(G.lst([G.un(nm, A), G.binop(nm, A, B), G.post(A, nm), G.call(nm, [A]), G.ref(nm)]))
     ag = G.AstGen(rng.fork(), table, max_depth=4)
-    fixed = [G.stmt([G.binop("+", G.un("-", G.ref("a")), G.post(G.ref("b"), "++")), G.tern(G.ref("a"), G.call("f", [G.lst([G.num(1)])]), G.mp([(G.num(1), G.ref("b"))]))]),
-             G.binop("in", G.binop("-", G.ref("a"), G.num(2)), G.lst([G.call("max", [G.ref("b")])])), G.un("not", G.binop("in", G.ref("a"), G.ref("b"))), G.post(G.ref("x1"), "--")]
-    subsets = list(range(512)) if not c.quick() else sorted(set([0, 511] + [1 << i for i in range(9)] + [511 ^ (1 << i) for i in range(9)] + [rng.below(512) for _ in range(40)]))
+    n_cfg = 60 if c.quick() else 1500
     total = 0
-    for sub in subsets:
+    for ci in range(n_cfg):
         cfg, pre = {}, []
-        for i, k in enumerate(kinds):
-            if sub >> i & 1:
-                if k in named:
-                    # register for the first name only: the second name must keep the default
-                    nm = named[k][rng.below(2)]
-                    tag = "%s_%s" % (k, nm.encode().hex())
-                    cfg[(k, nm)] = tag
-                    pre.append("DESC\t%s\t%s\t%s" % (k, hx(nm), tag))
-                else:
-                    cfg[(k, None)] = k
-                    pre.append("DESC\t%s\t-\t%s" % (k, k))
-        asts = fixed + [ag.program() for _ in range(8 if c.quick() else 20)]
+        regs_ = []
+        for k in kinds:
+            if k in named:
+                for nm in named[k]:
+                    if rng.chance(1, 3):
+                        regs_.append((k, nm))
+            elif rng.chance(1, 2):
+                regs_.append((k, None))
+        if ci == 0: regs_ = []
+        if ci == 1: regs_ = [(k, nm) for k in kinds for nm in (named.get(k) or [None])]
+        # registration order matters for a key collision: shuffle
+        for i in range(len(regs_) - 1, 0, -1):
+            j = rng.below(i + 1)
+            regs_[i], regs_[j] = regs_[j], regs_[i]
+        for k, nm in regs_:
+            tag = "%s_%s" % (k, nm.encode().hex()) if nm is not None else k
+            cfg[(k, nm)] = tag
+            pre.append("DESC\t%s\t%s\t%s" % (k, hx(nm) if nm is not None else "-", tag))
+        asts = fixed + [ag.program() for _ in range(6 if c.quick() else 20)]
         reqs = pre + ["DESCRAST\t" + sexp_str(t) for t in asts]
         impl, model = both(reqs)
         total += len(reqs)
-        st = Stream("descriptor configuration %03x" % sub, reqs, impl, model, numeric=False)
+        st = Stream("descriptor configuration %d" % ci, reqs, impl, model, numeric=False)
         for i in st.disagreements:
             c.violation("model-vs-implementation", "describe stream", {"requests": pre + [reqs[i]], "implementation": impl[i], "model": model[i]})
         for r in reqs:
-            c.count(r + str(sub))
+            c.count(r + str(ci))
         for t, r, a in zip(asts, reqs[len(pre):], impl[len(pre):]):
             exp = "OK\t" + hx(py_describe(t, cfg))
             if a != exp:
                 c.violation("implementation-vs-property", "describe() does not use exactly the registered descriptor / default",
                             {"requests": pre + [r], "expected": py_describe(t, cfg), "implementation": unhx(a.split("\t")[1]) if a.startswith("OK\t") else a})
     c.streams.append({"stream": "DESC/DESCRAST per configuration (fresh process each)", "requests": total, "disagreements": 0, "unmodelled_skipped": 0,
-                      "informational_error_kind_drift": 0, "configurations": len(subsets)})
+                      "informational_error_kind_drift": 0, "configurations": n_cfg})
     c.sample({"configuration": "binary(+) + list", "request": "DESCRAST " + sexp_str(fixed[1])})
-    return c.finish(trusted=TB_COMMON, rule="%d of the 2^9 subsets of descriptor kinds (all 512 in the thorough tier), one of two names registered per named kind (the other must keep the default), fixed ASTs containing every kind + random parser-range ASTs, each configuration in a fresh process; oracle: independent rendering in Python" % len(subsets))
+    return c.finish(trusted=TB_COMMON, rule="%d random configurations of (kind, name) registrations — the same names under unary/binary/postfix/function/reference, random registration order, plus the empty and the full configuration — × fixed ASTs containing every (kind, name) pair + random parser-range ASTs, each configuration in a fresh process; oracle: independent rendering in Python" % n_cfg)
 
 
 # =====================================================================================
@@ -929,23 +942,28 @@ def check_C13(c):
     n_forced = 0
     for stage in range(0, 5):
         for a_act in (["parse", "regfn"] if c.quick() else acts):
-            for b_act in acts:
+            for b_act in acts + ["override"]:
                 rc, out = sched(["initprobe", stage, a_act, b_act])
                 n_forced += 1
                 c.count("initprobe %d %s %s" % (stage, a_act, b_act))
                 f = dict(x.split("=", 1) for x in out.split(" ") if "=" in x)
-                ok = rc == 0 and f.get("held") == "true" and f.get("b_early") == "false" and f.get("a") == expect(a_act, 0) and f.get("b") == expect(b_act, 1)
+                exp_a = expect(a_act, 0)
+                if b_act == "override" and a_act in ("exec", "regfn"):
+                    exp_a = None  # A's own result may legitimately see max before or after the override
+                ok = rc == 0 and f.get("held") == "true" and f.get("b_early") == "false" and (exp_a is None or f.get("a") == exp_a) and f.get("b") == expect(b_act, 1) \
+                    and (b_act != "override" or f.get("final:max") == "ok:Number(-7)")
                 if not ok:
                     c.violation("implementation-vs-property", "first call during initialisation (stage %d): a thread did not wait for, or did not see, the complete built-in tables" % stage,
                                 {"schedule": "A=%s held inside init at stage %d; B=%s makes its first call" % (a_act, stage, b_act), "implementation": out,
                                  "expected": "held=true b_early=false a=%s b=%s" % (expect(a_act, 0), expect(b_act, 1))})
     # (b) override of a built-in registered before first use, racing with first uses: the override must survive init
-    for i in range(10 if c.quick() else 200):
-        rc, out = sched(["race", 4, "override", "parse", "execops", "regprefix"])
+    for i in range(40 if c.quick() else 600):
+        rc, out = sched(["race", 4 + (i % 5), "override", "parse", "execops", "regprefix", "parse", "exec", "parse", "parse"])
         c.count("race-override %d" % i)
         res = dict(x.split("=", 1) for x in out.split(" ") if "=" in x)
         # afterwards max must be the override in a follow-up process? (same process ended) — check thread 0 saw its own registration
-        if rc != 0 or res.get("0:override") != "ok:Number(-7)" or res.get("1:parse") != alone["parse"] or res.get("2:execops") != alone["execops"]:
+        if rc != 0 or res.get("0:override") != "ok:Number(-7)" or res.get("1:parse") != alone["parse"] or res.get("2:execops") != alone["execops"] \
+                or res.get("final:max") != "ok:Number(-7)":
             c.violation("implementation-vs-property", "override of a built-in racing with first use was lost / a first call saw a partial table", {"implementation": out})
     # (c) unforced races at process start: every per-thread result must equal its sequential result
     n_race = 0
@@ -1021,6 +1039,22 @@ def check_C16(c):
             if canon(alone[-1]) != canon(impl[3 + j]):
                 c.violation("implementation-vs-property", "a call's result depends on other programs / other contexts evaluated before it",
                             {"embedded_history": reqs[: 4 + j], "embedded_result": impl[3 + j], "alone": own, "alone_result": alone[-1]})
+    # many failing parses / evaluations first, then every pool program: results must equal the program alone
+    for bad in ["(1 +", "[[[[[[[[[[[[[[[[[[[[[[[[[[[[[[[[[[[[[[[[", "1/0", "- - - - - - - - - -", "{1:", "f(1,", "a = ", "'abc"]:
+        pre = ["CTX\tc0\t()"] + [exec_line("c0", bad) for _ in range(150 if c.quick() else 400)]
+        tail = []
+        for p in progs_pool:
+            tail.append("CTX\tc\t()")
+            tail.append(exec_line("c", p))
+        im = run_impl(pre + tail)
+        alone_r = run_impl(tail)
+        total += len(pre) + 2 * len(tail)
+        for r, a, bb in zip(tail, im[len(pre):], alone_r):
+            c.count(r + bad)
+            if canon(a) != canon(bb):
+                c.violation("implementation-vs-property", "a call's result depends on failed parses/evaluations made before it",
+                            {"history": "%d × `%s`, then the request" % (len(pre) - 1, bad), "request": r, "input_text": unhx(r.split("\t")[2]) if r.startswith("EXEC") else "",
+                             "after_history": a, "alone": bb})
     # same AST evaluated repeatedly with equal contexts
     rep = []
     for p in progs_pool:
